@@ -504,6 +504,10 @@ class Interp:
             f = fn.__func__
             if is_repo_function(f) or isinstance(f, IFunc):
                 return self.call(f, [fn.__self__] + list(args), kwargs)
+            w = getattr(f, "__wrapped__", None)
+            if w is not None and isinstance(f, types.FunctionType) and (is_repo_function(w) or isinstance(w, IFunc)) \
+                    and f.__code__.co_filename.endswith(("contextlib.py", "functools.py")):
+                return self.call(f, [fn.__self__] + list(args), kwargs)
             r = self.models.call(self, fn, args, kwargs)
             if r is not NotImplemented:
                 return r
